@@ -111,6 +111,14 @@ func (s *vSpy) Flush() {
 	s.flushes++
 }
 
+// vSpyNoFlush is the same spy behind a writer that is not an http.Flusher (and
+// no io.ReaderFrom): Flush still commits the response.
+type vSpyNoFlush struct{ s *vSpy }
+
+func (w vSpyNoFlush) Header() http.Header         { return w.s.Header() }
+func (w vSpyNoFlush) Write(b []byte) (int, error) { return w.s.Write(b) }
+func (w vSpyNoFlush) WriteHeader(code int)        { w.s.WriteHeader(code) }
+
 // vRef is the reference automaton written from the property statement.
 type vRef struct {
 	status int
@@ -123,7 +131,11 @@ func VH_C13_kstep() {
 	k := vx.ParamInt("k")
 	method := vx.String(4)
 	spy := &vSpy{shortWrites: vx.ParamInt("short") == 1}
-	w := NewResponseWriter(method, spy)
+	var under http.ResponseWriter = spy
+	if vx.ParamInt("noflush") == 1 {
+		under = vSpyNoFlush{spy}
+	}
+	w := NewResponseWriter(method, under)
 	ref := vRef{}
 	var registered []int // hook ids registered while no status had been sent
 	var ran []int        // hook ids in the order they ran
@@ -268,8 +280,20 @@ func VH_C13_step() {
 	var w ResponseWriter = rw
 	ref := pre
 
-	op := vx.Choice(3)
+	op := vx.Choice(4)
 	switch op {
+	case 3:
+		n := vx.Int(0, 2)
+		before := spy.bytes
+		_, _ = io.Copy(w, &vPlainReader{data: make([]byte, n)})
+		if n > 0 && ref.status == 0 {
+			ref.status = 200
+		}
+		fwd := spy.bytes - before
+		ref.size += fwd
+		if method == "HEAD" {
+			vx.Assert(fwd == 0, "HEAD forwards no body bytes")
+		}
 	case 0:
 		code := vx.Int(100, 999)
 		w.WriteHeader(code)
@@ -300,13 +324,21 @@ func VH_C13_step() {
 	vx.Assert(w.Status() == ref.status, "step: Status()")
 	vx.Assert(w.Size() == ref.size, "step: Size()")
 	vx.Assert(w.Written() == (ref.status != 0), "step: Written()")
-	vx.Assert(spy.headers == 1, "step: exactly one status line after any of the three operations")
-	vx.Assert(spy.firstCode == ref.status, "step: status sent == status reported")
+	// every operation commits the response, except a copy of zero bytes
+	vx.Assert(spy.headers <= 1 && (spy.headers == 1) == (ref.status != 0), "step: exactly one status line after any operation that commits the response")
+	if ref.status != 0 {
+		vx.Assert(spy.firstCode == ref.status, "step: status sent == status reported")
+	}
 	vx.Assert(!spy.bodyBeforeHd, "step: status precedes body/flush")
 	vx.Assert(spy.bytes == ref.size, "step: Inv size == forwarded bytes")
 	vx.Assert(!hookSawHeader, "step: hooks run before the status reaches the underlying writer")
 	if sent {
 		vx.Assert(len(ran) == 0 && ref.status == pre.status, "step: after the first status nothing re-runs and the status is frozen")
+	} else if ref.status == 0 {
+		// a copy of zero bytes commits nothing: hooks stay pending, a later status is the first one
+		vx.Assert(len(ran) == 0 && spy.headers == 0, "step: an operation that sends nothing runs no hook")
+		vx.Observe("step", op, sent, method, ref.status, ref.size-pre.size, len(ran))
+		return
 	} else {
 		ok := len(ran) == pending
 		if ok {
